@@ -2,7 +2,8 @@
   C03 "capacity is not lost" (work conservation), core development.
 
   From a reachable state in which the loop is selecting, a job is ready, fewer than `N` bodies
-  run, the context is live, the front ready job is valid and (fail-fast) nothing has failed,
+  run, the context of the front ready job is live, that job is valid and (fail-fast) nothing has
+  failed or is about to (`NothingFailed`),
   the scheduler by internal steps alone gets one more body running.  The statement with the
   `W.isRunning` of `Properties.lean` is in `WorkCons.lean`; here it is proved for the identical
   predicate `W.isRun`, so that this file does not depend on `Properties.lean`.
@@ -73,7 +74,7 @@ theorem result_ready_prefix (c : Cfg) (l : LoopSt) (j : Nat) (r : Res) :
 structure Base (c : Cfg) (s : State) : Prop where
   r2 : Reach2 c s
   i8 : Inv8 c s
-  ci : CancelInv s
+  ci : CancelInv c s
 
 theorem base_step {c : Cfg} (hw : c.wiring = Wiring.std) (hwf : WfCfg c) {s s' : State} {a : Act}
     (b : Base c s) (h : step c s a = some s') : Base c s' :=
@@ -87,26 +88,63 @@ theorem base_run {c : Cfg} (hw : c.wiring = Wiring.std) (hwf : WfCfg c) (acts : 
   exact ⟨⟨⟨inv1_init c, inv2_init c, inv3_init c, inv4_init c, inv5_init c⟩, inv6_init c, inv7_init c⟩,
          inv8_init c, cancelInv_init c⟩
 
+end P3
+
+/-- "Nothing failed so far, and nothing in flight is about to fail" (the fail-fast hypothesis of
+    work conservation): every body that ended, ended `ok`; no job was skipped because of its
+    context; and the jobs workers have received but not yet decided on have live contexts.
+    (With one context per job the last two are needed: a worker holding a job whose own context
+    is cancelled will post `ctxErr`, and fail-fast leaves the loop on it, however live the
+    context of the front ready job is.) -/
+def NothingFailed (c : Cfg) (s : State) : Prop :=
+  (∀ j o, Ev.ended j o ∈ s.log → o = .ok) ∧ (∀ j, Ev.skipped j .ctx ∉ s.log) ∧
+  (∀ (w j : Nat), s.ws[w]? = some (W.holding j) → s.cancelledCtx (c.ctxOfJob j) = false)
+
+namespace P3
+
 /-- The hypotheses of work conservation, with the front ready job `h` named.  Preserved by the
     "settling" steps (worker decisions that skip, posts, the loop consuming results). -/
 structure WC (c : Cfg) (h : Nat) (s : State) : Prop where
   base : Base c s
   sel : s.loop.phase = .select
   head : s.loop.ready.head? = some h
-  live : s.cancelled = false
+  live : s.cancelledCtx (c.ctxOfJob h) = false
   valid : (job s.loop h).invalid = false
-  nofail : c.coe = true ∨ ∀ j o, Ev.ended j o ∈ s.log → o = .ok
+  nofail : c.coe = true ∨ NothingFailed c s
 
-/-- Fail-fast, live context, nothing failed: every result in flight is a success. -/
+/-- Fail-fast, nothing failed: every result in flight is a success. -/
 theorem produced_ok {c : Cfg} {h : Nat} {s : State} (g : WC c h s) (hc : c.coe = false) {j : Nat} {r : Res}
     (hp : Produced j r s.log) : r = .ok := by
   rcases hp with ⟨o, rfl, he⟩ | ⟨_, hsk⟩ | ⟨_, hsk⟩
   · rcases g.nofail with hn | hn
     · simp [hc] at hn
-    · have := hn j o he; subst this; rfl
-  · have := g.base.ci.flag (g.base.r2.i6.skipCtx j hsk)
-    simp [g.live] at this
+    · have := hn.1 j o he; subst this; rfl
+  · rcases g.nofail with hn | hn
+    · simp [hc] at hn
+    · exact absurd hsk (hn.2.1 j)
   · exact absurd hsk (g.base.i8.noInvalidFf hc j)
+
+/-- `NothingFailed` is kept by a step that changes one worker slot to a non-`holding` state and
+    logs neither an `ended` nor a context skip. -/
+theorem nothingFailed_frame {c : Cfg} {s s' : State} {w : Nat} {y : W} {es : List Ev}
+    (hn : NothingFailed c s) (hws : s'.ws = s.ws.set w y) (hy : ∀ j, y ≠ W.holding j)
+    (hcan : s'.doneCtx = s.doneCtx) (hlog : s'.log = s.log ++ es)
+    (hes : ∀ e ∈ es, (∀ j o, e ≠ Ev.ended j o) ∧ (∀ j, e ≠ Ev.skipped j .ctx)) : NothingFailed c s' := by
+  obtain ⟨n1, n2, n3⟩ := hn
+  refine ⟨?_, ?_, ?_⟩
+  · intro j o hm; rw [hlog] at hm
+    rcases List.mem_append.mp hm with hm | hm
+    · exact n1 j o hm
+    · exact absurd rfl ((hes _ hm).1 j o)
+  · intro j hm; rw [hlog] at hm
+    rcases List.mem_append.mp hm with hm | hm
+    · exact n2 j hm
+    · exact absurd rfl ((hes _ hm).2 j)
+  · intro w' j hj; rw [hws] at hj
+    simp only [State.cancelledCtx, hcan]
+    rcases getElem?_set_cases hj with ⟨_, hh⟩ | ⟨_, hj⟩
+    · exact absurd hh.symm (hy j)
+    · exact n3 w' j hj
 
 theorem head_cons {l : List Nat} {h : Nat} (hh : l.head? = some h) : ∃ t, l = h :: t := by
   cases l with
@@ -116,14 +154,14 @@ theorem head_cons {l : List Nat} {h : Nat} (hh : l.head? = some h) : ∃ t, l = 
 /-- A worker step that neither starts nor ends a body keeps the hypotheses. -/
 theorem wc_worker {c : Cfg} (hw : c.wiring = Wiring.std) (hwf : WfCfg c) {h : Nat} {s s' : State} {a : Act}
     (g : WC c h s) (hl : a.isLoop = false) (hs : step c s a = some s')
-    (hcan : s'.cancelled = s.cancelled) (hlog : ∀ j o, Ev.ended j o ∈ s'.log → Ev.ended j o ∈ s.log) :
+    (hcan : s'.doneCtx = s.doneCtx) (hnf : NothingFailed c s → NothingFailed c s') :
     WC c h s' := by
   have hloop := step_nonloop_frame hw hl hs
   refine ⟨base_step hw hwf g.base hs, by rw [hloop]; exact g.sel, by rw [hloop]; exact g.head,
-          by rw [hcan]; exact g.live, by rw [hloop]; exact g.valid, ?_⟩
+          by simp only [State.cancelledCtx, hcan]; exact g.live, by rw [hloop]; exact g.valid, ?_⟩
   rcases g.nofail with hn | hn
   · exact Or.inl hn
-  · exact Or.inr (fun j o hm => hn j o (hlog j o hm))
+  · exact Or.inr (hnf hn)
 
 /-- The loop consuming a result keeps the hypotheses: it stays in its `select`, the front of
     `ready` is unchanged and keeps its `invalid` flag. -/
@@ -193,15 +231,24 @@ theorem wc_result {c : Cfg} (hw : c.wiring = Wiring.std) (hwf : WfCfg c) {h : Na
     rw [hready']; rfl
   · rcases g.nofail with hn | hn
     · exact Or.inl hn
-    · refine Or.inr (fun k o hm => hn k o ?_)
-      simp only [List.append_assoc] at hm
-      rcases List.mem_append.mp hm with hm | hm
-      · exact hm
-      · rcases List.mem_append.mp hm with hm | hm
-        · simp at hm
-        · split at hm
-          · simp [invalidWrites] at hm
-          · simp at hm
+    · have noEv : ∀ e, e ∈ s.log ++ [Ev.resultSeen j r] ++
+            (if (r.isErr && c.coe) = true then invalidWrites (job s.loop j).consumers else []) →
+          ((∃ k o, e = Ev.ended k o) ∨ (∃ k, e = Ev.skipped k .ctx)) → e ∈ s.log := by
+        intro e hm hk
+        simp only [List.append_assoc] at hm
+        rcases List.mem_append.mp hm with hm | hm
+        · exact hm
+        · exfalso
+          rcases List.mem_append.mp hm with hm | hm
+          · simp at hm; subst hm
+            rcases hk with ⟨_, _, hk⟩ | ⟨_, hk⟩ <;> simp at hk
+          · split at hm
+            · simp [invalidWrites] at hm
+              obtain ⟨_, _, rfl⟩ := hm
+              rcases hk with ⟨_, _, hk⟩ | ⟨_, hk⟩ <;> simp at hk
+            · simp at hm
+      exact Or.inr ⟨fun k o hm => hn.1 k o (noEv _ hm (Or.inl ⟨k, o, rfl⟩)),
+        fun k hm => hn.2.1 k (noEv _ hm (Or.inr ⟨k, rfl⟩)), hn.2.2⟩
 
 /-! ### the dispatch itself, from a settled state -/
 
@@ -307,39 +354,51 @@ theorem settle {c : Cfg} (hw : c.wiring = Wiring.std) (hwf : WfCfg c) (h : Nat) 
       | running j => simp [W.unsettled] at hux
       | exited => simp [W.unsettled] at hux
       | holding j =>
+        cases hcanj : s.cancelledCtx (c.ctxOfJob j) with
+        | true =>
+          -- the job's own context is cancelled: it is skipped (only possible with ContinueOnError)
+          have hs : step c s (.workerDecide w) = some (addLog (setW s w (.posting j .ctxErr)) (.skipped j .ctx)) := by
+            simp [step, hw', hcanj, hw, Wiring.std]
+          refine via _ _ (by simp [Act.isInternal]) (by simp) hs ?_ ?_
+          · refine wc_worker hw hwf g (by simp [Act.isLoop]) hs rfl ?_
+            intro hn
+            have := hn.2.2 w j hw'
+            rw [hcanj] at this; simp at this
+          · simp only [addLog_ws, setW_ws]
+            exact countP_set_same hw' (by simp [W.isRun])
+        | false =>
         cases hinv : (job s.loop j).invalid with
         | false =>
           -- the job starts: one more body running
           have hs : step c s (.workerDecide w) = some (addLog (setW s w (.running j)) (.started j)) := by
-            simp [step, hw', g.live, hinv]
+            simp [step, hw', hcanj, hinv]
           refine ⟨[.workerDecide w], _, by simp [Act.isInternal], run_single hs, ?_⟩
           simp only [addLog_ws, setW_ws]
           rw [countP_set_add hw' (by simp [W.isRun]) (by simp [W.isRun])]
           omega
         | true =>
           have hs : step c s (.workerDecide w) = some (addLog (setW s w (.posting j .invalid)) (.skipped j .invalid)) := by
-            simp [step, hw', g.live, hinv, hw, Wiring.std]
+            simp [step, hw', hcanj, hinv, hw, Wiring.std]
           refine via _ _ (by simp [Act.isInternal]) (by simp) hs ?_ ?_
           · refine wc_worker hw hwf g (by simp [Act.isLoop]) hs rfl ?_
-            intro k o hm
-            simp only [addLog_log, setW_log] at hm
-            rcases List.mem_append.mp hm with hm | hm
-            · exact hm
-            · simp at hm
+            intro hn
+            exact nothingFailed_frame (es := [Ev.skipped j .invalid]) hn rfl (by simp) rfl rfl (by simp)
           · simp only [addLog_ws, setW_ws]
             exact countP_set_same hw' (by simp [W.isRun])
       | posting j r =>
         have hs : step c s (.workerPost w) = some (setW { s with donec := s.donec ++ [(j, r)] } w .idle) := by
           simp [step, hw', hroom]
         refine via _ _ (by simp [Act.isInternal]) (by simp) hs ?_ ?_
-        · exact wc_worker hw hwf g (by simp [Act.isLoop]) hs rfl (fun _ _ hm => hm)
+        · exact wc_worker hw hwf g (by simp [Act.isLoop]) hs rfl
+            (fun hn => nothingFailed_frame (es := []) hn rfl (by simp) rfl (by simp) (by simp))
         · simp only [setW_ws]
           exact countP_set_same hw' (by simp [W.isRun])
       | dying j =>
         have hs : step c s (.workerDiePost w) = some (setW { s with donec := s.donec ++ [(j, .exitErr)] } w .idle) := by
           simp [step, hw', hroom, hw, Wiring.std]
         refine via _ _ (by simp [Act.isInternal]) (by simp) hs ?_ ?_
-        · exact wc_worker hw hwf g (by simp [Act.isLoop]) hs rfl (fun _ _ hm => hm)
+        · exact wc_worker hw hwf g (by simp [Act.isLoop]) hs rfl
+            (fun hn => nothingFailed_frame (es := []) hn rfl (by simp) rfl (by simp) (by simp))
         · simp only [setW_ws]
           exact countP_set_same hw' (by simp [W.isRun])
     · have hsettled : ∀ x ∈ s.ws, W.unsettled x = false := by
@@ -368,16 +427,16 @@ theorem work_conserving_core (c : Cfg) (hw : c.wiring = Wiring.std) (hwf : WfCfg
     (hr : run c (init c) acts = some s)
     (hsel : s.loop.phase = .select) (hready : s.loop.ready ≠ [])
     (hfree : s.ws.countP W.isRun < c.N)
-    (hlive : s.cancelled = false)
+    (hlive : ∀ j, s.loop.ready.head? = some j → s.cancelledCtx (c.ctxOfJob j) = false)
     (hvalid : ∀ j, s.loop.ready.head? = some j → (Loop.job s.loop j).invalid = false)
-    (hnofail : c.coe = true ∨ ∀ j o, Ev.ended j o ∈ s.log → o = .ok) :
+    (hnofail : c.coe = true ∨ NothingFailed c s) :
     ∃ (more : List Act) (s' : State), (∀ a ∈ more, a.isInternal = true) ∧ run c s more = some s' ∧
       s.ws.countP W.isRun < s'.ws.countP W.isRun := by
   obtain ⟨h, hh⟩ : ∃ h, s.loop.ready.head? = some h := by
     cases hr' : s.loop.ready with
     | nil => exact absurd hr' hready
     | cons a t => exact ⟨a, rfl⟩
-  have g : WC c h s := ⟨base_run hw hwf acts s hr, hsel, hh, hlive, hvalid h hh, hnofail⟩
+  have g : WC c h s := ⟨base_run hw hwf acts s hr, hsel, hh, hlive h hh, hvalid h hh, hnofail⟩
   exact settle hw hwf h (mu c s + 1) s g (by omega) hfree
 
 end Sched
